@@ -56,6 +56,9 @@ TaskShadow &T(int t) { if ((int)ts.size() <= t) ts.resize((size_t)t + 1); return
 inline long fsupc_of(long col) { return Glu->xsup[Glu->supno[col]]; }
 inline bool in_subtree(long node, long root) { return node <= root && node > root - subtree[root]; }
 
+uint64_t sched_state_hash();
+extern uint64_t sched_hash_last;
+
 void on_init(long n, const void *ptr, long c) {
     shared = (pxgstrf_shared_t *)ptr; options = (superlumt_options_t *)c; Glu = shared->Glu; N = n; inited = true;
     sim::note_sched_lock(&shared->lu_locks[SCHED_LOCK]);
@@ -95,7 +98,27 @@ void on_init(long n, const void *ptr, long c) {
     }
     if (shared->num_splits > 0) probes["panel_split_at_top"]++;
     probes["factorizations_monitored"]++;
+    sched_hash_last = sched_state_hash();
 }
+
+// everything SCHED_LOCK protects: unfinished-children counters, task queue, tasks_remain, farthest-busy table, and the
+// panel states except the owner's BUSY -> DONE store (which is made outside the lock by design)
+uint64_t sched_state_hash() {
+    uint64_t h = 1469598103934665603ULL;
+    auto mixin = [&](long v) { h = sim::mix(h, (uint64_t)v + 0x9e37); };
+    for (long j = 0; j <= N; ++j) {
+        mixin(shared->pan_status[j].ukids);
+        int stt = (int)shared->pan_status[j].state; if (stt == DONE) stt = BUSY;
+        mixin(stt);
+        mixin(shared->fb_cols[j]);
+    }
+    queue_t *q = &shared->taskq;
+    mixin(q->head); mixin(q->tail); mixin(q->count);
+    for (long k = q->head; k < q->tail && k < N; ++k) mixin(q->queue[k]);
+    mixin(shared->tasks_remain);
+    return h;
+}
+uint64_t sched_hash_last = 0;
 
 void check_lock(int task, int which, const char *what) {
     if (!shared) return;
@@ -170,7 +193,12 @@ void on_event(int task, int kind, long pnum, long a, long b, long c, const void 
     if (!inited) return;
     TaskShadow &me = T(task);
     switch (kind) {
-    case SLU_EV_SCHED_CS: on_sched_cs(task, a, b, c); break;
+    case SLU_EV_SCHED_ENTER:
+        // nobody is inside the scheduler's critical section at this point (its only yield point is its last statement)
+        if (sim::mutex_owner(&shared->lu_locks[SCHED_LOCK]) < 0 && sched_state_hash() != sched_hash_last)
+            viol("C04", "scheduler_state_changed_outside_lock", fmt("unfinished-children counters / task queue / tasks_remain differ from their values at the end of the last critical section (task with panel %ld entering the scheduler)", a));
+        break;
+    case SLU_EV_SCHED_CS: on_sched_cs(task, a, b, c); sched_hash_last = sched_state_hash(); break;
     case SLU_EV_BUSY_SNAPSHOT: {
         me.lbusy = (const int_t *)ptr;
         long J = a, w = shared->pan_status[J].size, last = J + w - 1, lo = last - subtree[last] + 1;
